@@ -68,7 +68,7 @@ let u_tokok c =
   | Some st ->
     let bad = ref None in
     Array.iteri (fun i k -> if !bad = None && not (tok_ok_b (bytes_of_string k.ws) (bytes_of_string k.content)) then bad := Some i) st;
-    (match !bad with None -> Ok_ | Some i -> Diff (Printf.sprintf "token %d violates tok_ok" i))
+    (match !bad with None -> Ok_ | Some i -> Viol ("token_not_ok", Printf.sprintf "token %d violates tok_ok (blank leading whitespace, content not starting inside U+3000)" i))
   | None -> Skip
 
 (* the content relation R01 between the lexer's tokens and the final tokens *)
@@ -79,8 +79,9 @@ let u_r01 c =
     Array.iteri (fun i k ->
       let k' = b.(i) in
       if !bad = None && not (r01_b (tt_of_name k'.ty) (bytes_of_string k.content) (bytes_of_string k'.content)) then bad := Some i) a;
-    (match !bad with None -> Ok_ | Some i -> Diff (Printf.sprintf "token %d: %s -> %s not related by R01" i (hex a.(i).content) (hex b.(i).content)))
-  | Some _, Some _ -> Diff "token count changed between pre and final"
+    (* an acceptance predicate on the implementation's own tokens: its failure is a violation of C01 with this input, not a broken tie *)
+    (match !bad with None -> Ok_ | Some i -> Viol ("content_not_related", Printf.sprintf "token %d (%s): %s -> %s not related by R01 (exact; lower-cased keyword; directive with case changes within its name only; line comment / multi-line literal equal up to blanks)" i b.(i).ty (hex a.(i).content) (hex b.(i).content)))
+  | Some _, Some _ -> Viol ("content_not_related", "token count changed between pre and final")
   | _ -> Skip
 
 let () = register [ ("tokok", u_tokok); ("r01", u_r01); ("lower", u_lower); ("comment", u_comment); ("eofnl", u_eofnl) ]
